@@ -364,7 +364,30 @@ func main() {
 		fmt.Print(logs[0])
 	}
 	broken := false
+	var crashes []*violation
 	for i := range reports {
+		// a shard killed by an unrecoverable runtime error (stack overflow, concurrent map access,
+		// out of memory) while a case was running: attributed through the progress file the
+		// harness' watchdog keeps (see common.go Begin), reported as a violation, not as a harness
+		// failure.
+		if reports[i] == nil && rerrs[i] != nil {
+			out := filepath.Join(scratch, fmt.Sprintf("out-%d.json", i))
+			prog, perr := os.ReadFile(out + ".progress")
+			fatal := ""
+			for _, l := range strings.Split(logs[i], "\n") {
+				if strings.HasPrefix(l, "fatal error:") || strings.HasPrefix(l, "runtime: goroutine stack exceeds") || strings.HasPrefix(l, "panic:") {
+					fatal = l
+					break
+				}
+			}
+			if perr == nil && fatal != "" && !strings.Contains(logs[i], "zz_verif_") {
+				cb, _ := json.Marshal(map[string]any{"case": string(prog), "crash": fatal, "log_tail": tail(logs[i], 40)})
+				crashes = append(crashes, &violation{Key: "crash:" + oneLine(fatal, 80), Msg: fmt.Sprintf("process crashed (%s) while running: %s", fatal, oneLine(string(prog), 300)), Replay: cb, Count: 1})
+				reports[i] = &report{Property: id, Classes: map[string]int64{}, Nontrivial: map[string]bool{}, Exhaustive: false, Caps: []string{fmt.Sprintf("shard %d crashed", i)}}
+				rerrs[i] = nil
+				continue
+			}
+		}
 		if reports[i] == nil || rerrs[i] != nil {
 			fmt.Fprintf(os.Stderr, "BROKEN HARNESS: shard %d failed: %v\n%s\n", i, rerrs[i], tail(logs[i], 60))
 			broken = true
@@ -425,6 +448,7 @@ func main() {
 	if len(m.Samples) > 8 {
 		m.Samples = m.Samples[:8]
 	}
+	m.Violations = append(m.Violations, crashes...)
 	sort.Slice(m.Violations, func(i, j int) bool { return m.Violations[i].Key < m.Violations[j].Key })
 
 	// classify violations against the known-findings file
